@@ -319,6 +319,8 @@ def execute(trace):
     reent = {"nested": None, "late_reg": None, "em": None, "resolve": None}
 
     rich = bool(k.get("rich_data"))
+    owners = {}          # handler id -> the stateful object that was registered (bound-method owner / callable object)
+    ran_total = {}       # handler id -> number of invocations logged by the probe body
 
     def out_value(n, h):
         """what handler h leaves in out_data during notification n"""
@@ -377,20 +379,28 @@ def execute(trace):
         shape = (h + int(k.get("n_notify", 0))) % 4
         if shape == 1:
             class Owner:
+                def __init__(self):
+                    self.seen = 0              # the state of the plug-in instance whose method was registered
                 def run(self, data):
+                    self.seen += 1
                     return handler(data)
             hit("handler_bound_method")
-            return Owner().run
+            owners[h] = Owner()
+            return owners[h].run
         if shape == 2:
             import functools
             hit("handler_partial")
             return functools.partial(lambda tag, data: handler(data), f"probe_{h}")
         if shape == 3:
             class Callable_:
+                def __init__(self):
+                    self.seen = 0
                 def __call__(self, data):
+                    self.seen += 1
                     return handler(data)
             hit("handler_callable_object")
-            return Callable_()
+            owners[h] = Callable_()
+            return owners[h]
         return handler
 
     all_h = set()
@@ -618,6 +628,19 @@ def execute(trace):
         if regs and not exp_seq:
             hit("no_handler_matched")
         obs_seq = [(h, d) for h, d in invoked]
+        for h_, _ in obs_seq:
+            ran_total[h_] = ran_total.get(h_, 0) + 1
+        for nlog in nested_log:
+            for h_, _ in nlog[2]:
+                ran_total[h_] = ran_total.get(h_, 0) + 1
+        stale_owner = sorted(h_ for h_, o_ in owners.items() if o_.seen != ran_total.get(h_, 0))
+        if stale_owner and not violation:
+            # the object that was registered is the object that runs: its own state must have seen every invocation
+            violation = {"step": step, "cls": "copy_of_handler_ran",
+                         "detail": {"op": {"op": "notify", "event": op["event"]}, "handlers": stale_owner,
+                                    "invocations_logged": {str(h_): ran_total.get(h_, 0) for h_ in stale_owner},
+                                    "invocations_seen_by_registered_object": {str(h_): owners[h_].seen for h_ in stale_owner}}}
+            break
         if op["event"] in name_of and not violation:
             # two declared kinds are two events: a handler registered under ANOTHER name never runs for this one
             hit("raised_by_declared_name")
